@@ -56,6 +56,11 @@ func main() {
 		from, _ := strconv.Atoi(os.Args[3])
 		to, _ := strconv.Atoi(os.Args[4])
 		os.Exit(runWorker(os.Args[2], from, to, os.Args[5]))
+	case "digest":
+		if len(os.Args) < 4 {
+			usage()
+		}
+		os.Exit(h.DigestHistory(os.Args[2], os.Args[3]))
 	case "replay":
 		if len(os.Args) < 3 {
 			usage()
